@@ -14,7 +14,7 @@ def slim_run(r, around=None):
     return d
 
 
-def run_conn(res, whiches, prop_filter=None, timeout=900, with_responder=False):
+def run_conn(res, whiches, prop_filter=None, timeout=900, with_responder=False, with_streams=False):
     okb, blog, exe = vlib.build_harness()
     if not okb:
         res.failed_obligations.append(("harness does not build against /repo", blog))
@@ -46,6 +46,14 @@ def run_conn(res, whiches, prop_filter=None, timeout=900, with_responder=False):
             res.mismatches.append({"family": "conn/" + r["scenario"], "params": r["params"], "diag": rtxt.get(d, d), "at_event": i,
                                    "events_around": evs[max(0, i - 8):i + 3], "note": "the recorded trace is not a behaviour of Resp.rstep"})
         res.add_cov(responder_traces_validated=len(ritems) - len(rbad), responder_events=sum(len(e) for _, e in ritems))
+    if with_streams:
+        sbad, sitems = conncommon.validate_streams(res, ws_runs, res.prop)
+        stxt = {1: "event not enabled in the stream model", 2: "prefix chain violated"}
+        for r, d, i, evs in sbad:
+            res.mismatches.append({"family": "conn/" + r["scenario"], "params": {k: v for k, v in r["params"].items() if k != "streams"},
+                                   "diag": stxt.get(d, d), "at_event": i, "events_around": evs[max(0, i - 10):i + 3],
+                                   "note": "the recorded trace is not a behaviour of Stream.sstep"})
+        res.add_cov(stream_traces_validated=len(sitems) - len(sbad), stream_events=sum(len(e) for _, e in sitems))
     hist = collections.Counter()
     nev = 0
     for r, evs, outs in items:
